@@ -4,7 +4,7 @@ from xsym.scenario import Scenario
 EXPLANATION = ('Symbolic sequences of guard operations (operation kind, guard index, cell index, target node and mark of every step are solver '
                'variables) on 3 guards and 2 marked cells against a reference model; marked_ptr round trip for every mark split as leaf kernels.')
 ASSUMPTIONS = ['sequence length bounded (NOPS); 3 guards, 2 cells, 3 nodes, 2 mark bits']
-TIMEOUT = {'quick': 400, 'thorough': 3000}
+TIMEOUT = {'quick': 900, 'thorough': 3000}
 RECLS = {1: 'hp', 3: 'he', 5: 'ebr', 8: 'qsbr', 9: 'stamp', 10: 'lfrc', 2: 'hp-dyn', 4: 'he-dyn', 6: 'nebr', 7: 'debra', 11: 'lfrc-tl', 12: 'geb-lazy'}
 
 
